@@ -32,12 +32,12 @@ _TH = {}
 
 def plan(tier):
     if tier == 'quick':
-        return dict(runs=60 + 1500 + 60, batch=6, hard_timeout=900, soft_timeout=400)
+        return dict(runs=120 + 2400 + 120, batch=6, hard_timeout=900, soft_timeout=400)
     return dict(runs=2500 + 60000 + 2000, batch=20, hard_timeout=2400, soft_timeout=900)
 
 
 def _sizes(tier):
-    return (60, 1500) if tier == 'quick' else (2500, 60000)
+    return (120, 2400) if tier == 'quick' else (2500, 60000)
 
 
 def gen_x(rng, db, xeq=None):
